@@ -130,3 +130,119 @@ Example C06_instance_count :
   let evs := [Send 1 [1] None; Age 1900; Tick; Age 200; Tick; Age 2000; Tick; Age 2000; Tick; Age 2000; Tick; Age 2000; Tick; Tick] in
   cnt_obs 1 (outs c init evs) = 5 /\ firsts 1 evs (outs c init evs) = 1 /\ resends 1 evs (outs c init evs) = 4.
 Proof. vm_compute. repeat split; reflexivity. Qed.
+
+(* ================================================================================================== *)
+(* MESSAGE IDs.  The pending table of the connection is keyed by message ID, and the application may choose
+   the message ID of a request (Retx/ModelMid.v: [SendM id tok dl mid]; [Base e] = the events above).  This is
+   the model the implementation is compared with (Retx/Run.v).  Proofs in Retx/ProofsMid.v. *)
+From GoCoap Require Import Retx.ModelMid Retx.ProofsMid.
+
+(* without application-chosen message IDs it is the model above, observation by observation: on those
+   histories every theorem above is a theorem about it *)
+Theorem C06_mid_refines_base : forall c evs, NoDup (send_ids evs) ->
+  mouts c minit (map Base evs) = outs c init evs /\ mfinal c minit (map Base evs) = mk [] (final c init evs).
+Proof. exact mid_refines_base. Qed.
+Print Assumptions C06_mid_refines_base.
+
+(* after ANY history with distinct request numbers the table has at most one entry per message ID, every
+   entry belongs to a request whose call waits for the acknowledgement *)
+Theorem C06_mid_table_keyed : forall c evs, NoDup (msend_ids evs) ->
+  let ms := mfinal c minit evs in
+  NoDup (map (key (mids ms)) (pending (base ms))) /\ owned (base ms) /\ ids (base ms) = msend_ids evs.
+Proof. exact mid_table_keyed. Qed.
+Print Assumptions C06_mid_table_keyed.
+
+(* a new call - whatever its message ID; admitted, queued or refused - leaves every entry of the table in
+   place and unchanged (elapsed time, deadline, retransmission count): the table only grows at its end *)
+Theorem C06_send_keeps_table : forall c ms e, is_msend e ->
+  exists l, pending (base (fst (mstep c ms e))) = pending (base ms) ++ l.
+Proof. exact send_keeps_table. Qed.
+Print Assumptions C06_send_keeps_table.
+
+(* a call whose message ID is that of a still unacknowledged request is refused on the spot (result 3):
+   nothing is written and the table is exactly what it was *)
+Theorem C06_colliding_send_refused : forall c s mu b tok dl m,
+  ~ In b (ids s) -> first_waiting (reqs s) = None -> held s < nstart c ->
+  has_mid ((b, m) :: mu) (pending s) m = true ->
+  let r := mstep c (mk mu s) (SendM b tok dl m) in
+  pending (base (fst r)) = pending s /\ o_emit (snd r) = [] /\ o_ret (snd r) = [(b, 3, 0)] /\
+  reqs (base (fst r)) = reqs s ++ [{| q_id := b; q_tok := tok; q_dl := dl; q_st := Done 3; q_buf := None |}].
+Proof. exact colliding_send_refused. Qed.
+Print Assumptions C06_colliding_send_refused.
+
+(* THE SUCCESS CLAUSE UNDER COLLISIONS: request a is pending after any history pre; any number of further
+   calls are issued, with any message IDs (that of a included); the piggybacked response for a that
+   arrives then is returned by a's call *)
+Theorem C06_pending_request_answered : forall c pre sends a code,
+  NoDup (msend_ids (pre ++ sends)) -> all_msend sends ->
+  pending_wait (base (mfinal c minit pre)) a ->
+  In (a, 0, code) (o_ret (snd (mstep c (mfinal c minit (pre ++ sends)) (Base (Piggy a code))))).
+Proof. exact pending_request_answered. Qed.
+Print Assumptions C06_pending_request_answered.
+
+(* the bounds and stop conditions over ALL histories of the message-ID keyed model *)
+Theorem C06_bounded_per_entry_m : forall c evs, 0 <= max_rt c -> Forall (pend_ok c) (pending (base (mfinal c minit evs))).
+Proof. exact count_bounded_m. Qed.
+Print Assumptions C06_bounded_per_entry_m.
+
+Theorem C06_copies_bounded_m : forall c evs id,
+  0 <= max_rt c -> NoDup (msend_ids evs) ->
+  cnt_obs id (mouts c minit evs) <= 1 + max_rt c.
+Proof. exact copies_bounded_m. Qed.
+Print Assumptions C06_copies_bounded_m.
+
+Theorem C06_first_copy_once_m : forall c evs id,
+  0 <= max_rt c -> NoDup (msend_ids evs) ->
+  mfirsts id evs (mouts c minit evs) <= 1 /\
+  mresends id evs (mouts c minit evs) <= max_rt c * mfirsts id evs (mouts c minit evs) /\
+  (0 < cnt_obs id (mouts c minit evs) -> mfirsts id evs (mouts c minit evs) = 1).
+Proof. exact first_copy_once_m. Qed.
+Print Assumptions C06_first_copy_once_m.
+
+(* [wf]: distinct request numbers, entries owned, one entry per message ID - every reachable state (run_wf) *)
+Theorem C06_stops_after_ack_or_reset_m : forall c ms id e evs,
+  wf (mids ms) (base ms) -> transmitted id (base ms) -> stop_event id e -> Forall (not_msend id) evs ->
+  ~ In (Copy id) (o_emit (snd (mstep c ms (Base e)))) /\
+  Forall (fun o => ~ In (Copy id) (o_emit o)) (mouts c (fst (mstep c ms (Base e))) evs).
+Proof. exact stops_after_ack_or_reset_m. Qed.
+Print Assumptions C06_stops_after_ack_or_reset_m.
+
+Theorem C06_reachable_wf : forall c evs, NoDup (msend_ids evs) ->
+  wf (mids (mfinal c minit evs)) (base (mfinal c minit evs)).
+Proof. intros c evs H. apply run_wf; [exact wf_init|exact H]. Qed.
+Print Assumptions C06_reachable_wf.
+
+Theorem C06_stops_after_cancel_m : forall c ms id q evs,
+  find_rq (reqs (base ms)) id = Some q -> is_done (q_st q) = false -> Forall (not_msend id) evs ->
+  ~ In (Copy id) (o_emit (snd (mstep c ms (Base (Cancel id))))) /\
+  Forall (fun o => ~ In (Copy id) (o_emit o)) (mouts c (fst (mstep c ms (Base (Cancel id)))) evs).
+Proof. exact stops_after_cancel_m. Qed.
+Print Assumptions C06_stops_after_cancel_m.
+
+Theorem C06_no_false_success_m : forall c evs id cd,
+  (exists o, In o (mouts c minit evs) /\ In (id, 0, cd) (o_ret o)) ->
+  exists e, In e evs /\ is_resp_for_m id cd e.
+Proof. exact success_needs_response_m. Qed.
+Print Assumptions C06_no_false_success_m.
+
+(* "is transmitted": after ANY history, when fewer than NSTART calls wait for their acknowledgement no call
+   waits for its first transmission: a request is held back only by NSTART, never by a slot that a finished,
+   cancelled or refused call failed to hand back *)
+Theorem C06_no_idle_slot_m : forall c evs,
+  held (base (mfinal c minit evs)) < nstart c -> first_waiting (reqs (base (mfinal c minit evs))) = None.
+Proof. exact no_idle_slot_m. Qed.
+Print Assumptions C06_no_idle_slot_m.
+
+(* non-vacuity: request 1 pending; request 2 with the message ID of request 1 is refused (nothing sent);
+   request 1 is re-sent at the tick after ACK_TIMEOUT and its piggybacked response is returned; then the ID
+   is free: request 3 uses it, is admitted and re-sent, and the ACK carrying that ID (named by request 1)
+   moves request 3 on *)
+Example C06_instance_mid :
+  let c := {| ack_ms := 2000; max_rt := 4; nstart := 2 |} in
+  let evs := [Base (Send 1 [1] None); SendM 2 [2] None 1; Base (Age 2500); Base Tick; Base (Piggy 1 69);
+              SendM 3 [3] None 1; Base (Age 2500); Base Tick; Base (Ack 1); Base (Sep 3 69 7)] in
+  map (fun o => (o_emit o, o_ret o)) (mouts c minit evs) =
+  [([Copy 1], []); ([], [(2, 3, 0)]); ([], []); ([Copy 1], []); ([], [(1, 0, 69)]);
+   ([Copy 3], []); ([], []); ([Copy 3], []); ([], []); ([BareAck 7], [(3, 0, 69)])]
+  /\ pending_wait (base (mfinal c minit [Base (Send 1 [1] None)])) 1.
+Proof. split; [vm_compute; reflexivity|]. split; [eexists; split; [left; reflexivity|repeat split]|reflexivity]. Qed.
